@@ -184,6 +184,20 @@ CHECKS = {
         "std variants on concrete pools.",
         design="4/C12",
     ),
+    "C09": dict(
+        text="Warm-versus-cold equivalence over configuration histories: an alphabet of 33 operations (every settings "
+        "attribute of the five settings classes that affects results, deserializer / reset_deserializers, serializer / "
+        "reset_serializer, set_object_fields(.., fields | None), type_name, schema() on a NewType, class aliaser, order "
+        "overriding, validator(owner), dependent_required(owner), serialized(owner), default_type_name, conversions that "
+        "make a type recursive) and 9 observation kinds (deserialize / serialize on symbolic data for four type families, "
+        "both schemas). Warm run: pristine state, history with intermediate observations, observe; cold run: pristine "
+        "state (all registries, all module-level containers of apischema, all settings, every lru_cache), same operations "
+        "without intermediate observation, observe. Results must be equal for all data within bounds.",
+        note="Histories are enumerated by forks (quick: observe/op/observe for every op and observation kind, a second op for "
+        "two kinds; thorough: length 2 everywhere); the solver decides equivalence of the warm and cold compiled methods "
+        "on the data. Compilation runs concretely (NoTracing). A fresh-interpreter replay is used for violations.",
+        design="4/C09",
+    ),
 }
 
 NOT_YET = "check not built yet at this commit (work in progress, see DESIGN.md section 4)"
